@@ -77,6 +77,7 @@ Section Vars.
     Lemma merge_single_W k a b r : merge_single vmerge k a b = Some r -> qn (a_name a) = true -> qn (a_name b) = true -> W r = true.
     Proof.
       unfold merge_single. intros H Ha Hb.
+      destruct (atom_eqb a b); [injection H as <-; exact Ha|].
       destruct (rev_in a || rev_in b); [discriminate|].
       destruct (pyver_pair (a_name a) (a_name b)); [eapply vmerge_inv; eauto|].
       destruct (negb (str_eqb (a_name a) (a_name b))); [discriminate|].
